@@ -15,6 +15,7 @@ import Golib.Proof.C14FlexFast
 import Golib.Proof.C14FlexAlias
 import Golib.Proof.C14Wrap
 import Golib.Proof.C14Trans
+import Golib.Proof.C14Trans2
 
 namespace Golib.C14
 
@@ -570,5 +571,108 @@ example : Golib.Gen.Trans.C14.IndexFunc ([5, 7, 9, 7] : List Int) (fun v => v > 
     Golib.Gen.Trans.C14.IndexFunc ([5, 7, 9, 7] : List Int) (fun v => v > 9) = .ok (-1) ∧
     Golib.Gen.Trans.C14.ContainsFunc ([5, 7, 9, 7] : List Int) (fun v => v > 9) = .ok false := by
   refine ⟨?_, ?_, ?_⟩ <;> decide +kernel
+
+/-! ### Regenerated tie (wave 9): `slicez.Copy` / `SubSlice` / `Remove` / `FilterInPlace` / `Chunk` translated by `go2lean`
+
+Same abstraction as above (a slice value of the generated code = its content list).  Two more
+idealisations of the translator are used here and are written into the generated file's header:
+a nil SLICE value is the empty list (`return nil`, `[]T(nil)`; a comparison of a slice with nil
+stays outside the subset), and a result that is a view of a written parameter (`return s[:last]`)
+is returned as its CONTENT next to the updated parameter — that result and argument share memory
+after the call is not represented there; it is what `View.view` / `IpRes` of the hand-written
+models and the correspondence check (mutating the result) cover. -/
+
+/-- TIE: the translated `Copy` (clamping of `start`/`length`, `append([]T(nil), s[a:b]...)`) equals
+the content of the model's `copy` for ALL `Int` arguments — `Res.panic` exactly where the model has
+`none` (nowhere: `c14_copy`); nil result ↦ `[]`. -/
+theorem c14_trans_Copy (s : List Int) (start length : Int) :
+    Golib.Gen.Trans.C14.Copy s start length = viewXs s (copy s start length) :=
+  trans_copy s start length
+
+/-- Non-vacuity: clamped at both ends, negative length = the rest, empty results. -/
+example : Golib.Gen.Trans.C14.Copy ([1, 2, 3, 4] : List Int) 1 2 = .ok [2, 3] ∧
+    Golib.Gen.Trans.C14.Copy ([1, 2, 3, 4] : List Int) (-5) 9 = .ok [1, 2, 3, 4] ∧
+    Golib.Gen.Trans.C14.Copy ([1, 2, 3, 4] : List Int) 2 (-1) = .ok [3, 4] ∧
+    Golib.Gen.Trans.C14.Copy ([1, 2, 3, 4] : List Int) 4 1 = .ok [] := by
+  refine ⟨?_, ?_, ?_, ?_⟩ <;> decide +kernel
+
+/-- TIE: the translated `SubSlice` equals the content of the model's `subSlice` view for ALL `Int`
+arguments, `Res.panic` exactly where the model has `none` (nowhere: `c14_subslice`). -/
+theorem c14_trans_SubSlice (s : List Int) (start «end» : Int) :
+    Golib.Gen.Trans.C14.SubSlice s start «end» = viewXs s (subSlice s.length start «end») :=
+  trans_subSlice s start «end»
+
+/-- Non-vacuity: inner window, negative end = the rest, start clamped, empty. -/
+example : Golib.Gen.Trans.C14.SubSlice ([1, 2, 3, 4] : List Int) 1 3 = .ok [2, 3] ∧
+    Golib.Gen.Trans.C14.SubSlice ([1, 2, 3, 4] : List Int) 2 (-1) = .ok [3, 4] ∧
+    Golib.Gen.Trans.C14.SubSlice ([1, 2, 3, 4] : List Int) (-3) 2 = .ok [1, 2] ∧
+    Golib.Gen.Trans.C14.SubSlice ([1, 2, 3, 4] : List Int) 3 2 = .ok [] := by
+  refine ⟨?_, ?_, ?_, ?_⟩ <;> decide +kernel
+
+/-- TIE: the translated `Remove` (`copy(s[index:], s[index+1:])` as a memmove inside the argument,
+`s[last] = zero`, `return s[:last], v, true`) equals the model's `remove`: content of the returned
+slice, removed value, ok, AND the argument's memory afterwards; no panic for any `Int` index. -/
+theorem c14_trans_Remove (n1 : Bool) (s : List Int) (index : Int) :
+    Golib.Gen.Trans.C14.Remove s index = resOfOption ((remove n1 s index).map removeProj) :=
+  trans_remove n1 s index
+
+/-- The property clause directly on the regenerated definition: out of range nothing happens and the
+zero value comes back with `false`; in range the element is erased and the vacated cell zeroed. -/
+theorem c14_trans_Remove_spec (s : List Int) (index : Int) :
+    Golib.Gen.Trans.C14.Remove s index =
+      if index < 0 ∨ index ≥ (s.length : Int) then .ok ((s, 0, false), s)
+      else .ok ((s.eraseIdx index.toNat, s[index.toNat]?.getD 0, true), s.eraseIdx index.toNat ++ [0]) :=
+  trans_remove_spec s index
+
+/-- Non-vacuity: middle (shift), last (no shift), out of range on both sides. -/
+example : Golib.Gen.Trans.C14.Remove ([5, 6, 7, 8] : List Int) 1 = .ok (([5, 7, 8], 6, true), [5, 7, 8, 0]) ∧
+    Golib.Gen.Trans.C14.Remove ([5, 6, 7, 8] : List Int) 3 = .ok (([5, 6, 7], 8, true), [5, 6, 7, 0]) ∧
+    Golib.Gen.Trans.C14.Remove ([5, 6] : List Int) 2 = .ok (([5, 6], 0, false), [5, 6]) ∧
+    Golib.Gen.Trans.C14.Remove ([5, 6] : List Int) (-1) = .ok (([5, 6], 0, false), [5, 6]) := by
+  refine ⟨?_, ?_, ?_, ?_⟩ <;> decide +kernel
+
+/-- TIE: the translated `FilterInPlace` (a key-only `range` loop over the written parameter with
+the tuple swap `s[remain], s[i] = s[i], s[remain]`, `return s[:remain]`; the callback is a pure total
+`Int → Bool`, the translator's stated assumption) equals the model's `filterInPlace`: content of the
+returned slice AND the argument's memory afterwards; `Res.panic` exactly where the model has `none`
+(nowhere: `c14_inplace_perm`); fuel `len(s) + 1` suffices. -/
+theorem c14_trans_FilterInPlace (n1 : Bool) (s : List Int) (p : Int → Bool) :
+    Golib.Gen.Trans.C14.FilterInPlace s p = resOfOption ((filterInPlace p n1 s).map ipProj) :=
+  trans_filterInPlace n1 s p
+
+/-- The property clause directly on the regenerated definition: the result is `s.filter p` in order,
+the argument afterwards is a permutation of the original whose front is the result; no panic. -/
+theorem c14_trans_FilterInPlace_spec (s : List Int) (p : Int → Bool) :
+    ∃ res mem, Golib.Gen.Trans.C14.FilterInPlace s p = .ok (res, mem) ∧
+      res = s.filter p ∧ mem.Perm s ∧ res = mem.take res.length :=
+  trans_filterInPlace_spec s p
+
+/-- Non-vacuity: two swaps that move elements, everything selected, nothing selected. -/
+example : Golib.Gen.Trans.C14.FilterInPlace ([0, 5, 0, 6] : List Int) (fun v => v != 0) = .ok ([5, 6], [5, 6, 0, 0]) ∧
+    Golib.Gen.Trans.C14.FilterInPlace ([1, 2] : List Int) (fun v => v != 0) = .ok ([1, 2], [1, 2]) ∧
+    Golib.Gen.Trans.C14.FilterInPlace ([0, 0] : List Int) (fun v => v != 0) = .ok ([], [0, 0]) := by
+  refine ⟨?_, ?_, ?_⟩ <;> decide +kernel
+
+/-- TIE: the translated `Chunk` (`return nil`, `[][]T{s}`, the counted loop of `s[start:end]`
+appends and the remainder) equals the contents of the model's `chunk` views for ALL `Int` chunk
+sizes, `Res.panic` exactly where the model has `none` (nowhere: `c14_chunk_concat`); fuel
+`len(s) + 1` suffices. -/
+theorem c14_trans_Chunk (s : List Int) (chunkSize : Int) :
+    Golib.Gen.Trans.C14.Chunk s chunkSize = resOfOption ((chunk s.length chunkSize).map (chunkXs s)) :=
+  trans_chunk s chunkSize
+
+/-- The property clause directly on the regenerated definition: no panic, and the concatenation of
+the pieces is the input. -/
+theorem c14_trans_Chunk_concat (s : List Int) (chunkSize : Int) :
+    ∃ r, Golib.Gen.Trans.C14.Chunk s chunkSize = .ok r ∧ r.flatten = s :=
+  trans_chunk_concat s chunkSize
+
+/-- Non-vacuity: a remainder piece, an exact tiling, size ≥ len and size < 1 (one piece), empty input. -/
+example : Golib.Gen.Trans.C14.Chunk ([1, 2, 3, 4, 5] : List Int) 2 = .ok [[1, 2], [3, 4], [5]] ∧
+    Golib.Gen.Trans.C14.Chunk ([1, 2, 3, 4] : List Int) 2 = .ok [[1, 2], [3, 4]] ∧
+    Golib.Gen.Trans.C14.Chunk ([1, 2, 3] : List Int) 3 = .ok [[1, 2, 3]] ∧
+    Golib.Gen.Trans.C14.Chunk ([1, 2, 3] : List Int) (-4) = .ok [[1, 2, 3]] ∧
+    Golib.Gen.Trans.C14.Chunk ([] : List Int) 2 = .ok [] := by
+  refine ⟨?_, ?_, ?_, ?_, ?_⟩ <;> decide +kernel
 
 end Golib.C14
